@@ -133,7 +133,8 @@ class EventDataframeDataReader(AbstractDataframeDataReader):
             raise LeaspyDataInputError(
                 "There must be only an unique event_time and an unique event_bool per patient"
             )
-        df_event = df_event.groupby("ID").first()
+        # keep the individuals in order of first appearance (as the other readers do)
+        df_event = df_event.groupby("ID", sort=False).first()
 
         # Event must be empty to raise an error
         if len(df_event) == 0:
